@@ -132,7 +132,8 @@ def next_above(a: np.ndarray) -> np.ndarray:
     """Smallest representable coordinate value above each element."""
     a = np.asarray(a)
     if a.dtype.kind == 'f':
-        return np.nextafter(a, np.array(np.inf, dtype=a.dtype))
+        with np.errstate(over='ignore'):
+            return np.nextafter(a, np.array(np.inf, dtype=a.dtype))
     return as_number_array(a) + 1
 
 
